@@ -1268,6 +1268,40 @@ Definition g_intersection_init {TL : Type} (is_intersection : TL -> bool) (tl_so
   let self_sources := (g_flatten_sources is_intersection tl_sources sources) in
   self_sources.
 
+(* calgebra/properties.py: Operator.__init__ *)
+Definition g_operator_init {PROP : Type} {VAL : Type} (self_left : (PROP + VAL)) (self_right : (PROP + VAL)) (self_operator : (VAL -> VAL -> res bool)) (left_ : (PROP + VAL)) (right_ : (PROP + VAL)) (operator : (VAL -> VAL -> res bool)) : ((PROP + VAL) * (PROP + VAL) * (VAL -> VAL -> res bool)) :=
+  let self_left := left_ in
+  let self_right := right_ in
+  let self_operator := operator in
+  (self_left, self_right, self_operator).
+
+(* calgebra/core.py: Or.__init__ *)
+Definition g_or_init {FILT : Type} (self_filters : list FILT) (filters : list FILT) : (list FILT) :=
+  let self_filters := filters in
+  self_filters.
+
+(* calgebra/core.py: And.__init__ *)
+Definition g_and_init {FILT : Type} (self_filters : list FILT) (filters : list FILT) : (list FILT) :=
+  let self_filters := filters in
+  self_filters.
+
+(* calgebra/core.py: Filtered.__init__ *)
+Definition g_filtered_init {TL : Type} {FILT : Type} (self_source : TL) (self_filter : FILT) (source : TL) (filter_ : FILT) : (TL * FILT) :=
+  let self_source := source in
+  let self_filter := filter_ in
+  (self_source, self_filter).
+
+(* calgebra/core.py: Difference.__init__ *)
+Definition g_difference_init {TL : Type} (self_source : TL) (self_subtractors : list TL) (source : TL) (subtractors : list TL) : (TL * list TL) :=
+  let self_source := source in
+  let self_subtractors := subtractors in
+  (self_source, self_subtractors).
+
+(* calgebra/core.py: Complement.__init__ *)
+Definition g_complement_init {TL : Type} (self_source : TL) (source : TL) : TL :=
+  let self_source := source in
+  self_source.
+
 (* calgebra/core.py: Timeline._is_mask *)
 Definition g_is_mask_base  : bool :=
   false.
